@@ -134,6 +134,7 @@ impl Adapter for CbAd {
             "ctor": rng.below(2),
             "ord": rng.below(2),
             "hm": rng.below(3),
+            "base": if rng.pct(40) { 1 + rng.below(3) } else { 0 },
         })
     }
     fn build(&mut self, cfg: &Value, sim: &mut Sim) {
@@ -164,7 +165,13 @@ impl Adapter for CbAd {
         let via_layer = cfg["ctor"].as_u64().unwrap_or(0) == 1;
         let ctl: Box<dyn Handle>;
         let h: Box<dyn Handle> = if cfg["cls"] == "default" {
-            let b = opts!(CircuitBreakerLayer::builder());
+            // cfg.base: start from a preset; every setting of it is overridden by opts!
+            let b = match cfg["base"].as_u64().unwrap_or(0) {
+                1 => opts!(CircuitBreakerLayer::standard()),
+                2 => opts!(CircuitBreakerLayer::fast_fail()),
+                3 => opts!(CircuitBreakerLayer::tolerant()),
+                _ => opts!(CircuitBreakerLayer::builder()),
+            };
             let svc = if via_layer { b.build().layer(inner) } else { b.build().layer_fn(inner) };
             ctl = svc.boxed();
             if fb {
